@@ -518,7 +518,9 @@ class PLSSParser:
         new_tracts = []
         for tract_data in self.tract_components:
             desc = tract_data['desc']
-            if self.clean_up:
+            if self.clean_up and not tract_data.get('copy_all', False):
+                # (A copy_all tract holds the text as it is, also when a
+                # chunk falls back to copy_all under another layout.)
                 desc = cleanup_desc(desc)
             for sec in tract_data['sec']:
                 trs = f"{tract_data['twprge']}{sec}"
@@ -957,7 +959,7 @@ class ChunkParser:
         # Just the first section.
         sec = [sec[0]]
         twprge = self.get_next_twprge()
-        self._stage_new_tract(txt, sec, twprge)
+        self._stage_new_tract(txt, sec, twprge, copy_all=True)
 
     def _parse_meaningful(self, txt, layout):
         """
@@ -1026,13 +1028,15 @@ class ChunkParser:
             self.unused_components.append((len(self.tract_components), block))
         return None
 
-    def _stage_new_tract(self, desc, sec, twprge):
+    def _stage_new_tract(self, desc, sec, twprge, copy_all=False):
         """
         Stage a newly identified tract into ``.tract_components``.
 
         :param desc: Description block for new ``Tract``.
         :param sec: A list of section numbers.
         :param twprge: A Twp/Rge in the standardized format.
+        :param copy_all: Whether this tract holds the entire text
+         (``copy_all`` layout), which is then not to be cleaned up.
         :return: ``None`` (appends directly to ``.tract_components``)
         """
         new = {
@@ -1040,6 +1044,7 @@ class ChunkParser:
             'sec': sec,
             'twprge': twprge,
             'sec_within': False,
+            'copy_all': copy_all,
         }
         self.tract_components.append(new)
 
